@@ -370,8 +370,10 @@ def run_async_orders(spec, rec: Recorder):
                                     tasks.append(asyncio.ensure_future(dpapi_ng.async_ncrypt_protect_secret(pt, letter[2], root_key_identifier=w.rkids[0] if letter[3] else None, cache=cache, **w.kw)))
                                     expected.append(("P", pt))
                             # let every call run until it waits for its GetKey reply
-                            for _ in range(400):
-                                await asyncio.sleep(0)
+                            # (the client hands provider steps to worker threads: progress is not a function of loop iterations
+                            # alone, so after a burst of bare yields the gate waits in real time, under a generous watchdog)
+                            for spin in range(400 + 20000):
+                                await asyncio.sleep(0 if spin < 400 else 0.001)
                                 if len(mem.deferred) == k:
                                     break
                             if len(mem.deferred) != k:
@@ -380,8 +382,8 @@ def run_async_orders(spec, rec: Recorder):
                             for j in order:
                                 mem.release(j)
                                 await asyncio.wait_for(asyncio.shield(tasks[j]), 30) if False else None
-                                for _ in range(400):
-                                    await asyncio.sleep(0)
+                                for spin in range(400 + 20000):
+                                    await asyncio.sleep(0 if spin < 400 else 0.001)
                                     if tasks[j].done():
                                         break
                                 done_order.append(j if tasks[j].done() else None)
@@ -391,7 +393,7 @@ def run_async_orders(spec, rec: Recorder):
                         with mem.installed(), mon.CLOCK.at_ns(mon.filetime_to_ns(NOW_FT)):
                             mon.KDFS.n, mon.KDFS.limit = 0, KDF_BUDGET * k
                             try:
-                                res, expected, done_order = loop.run_until_complete(asyncio.wait_for(scenario(), 60))
+                                res, expected, done_order = loop.run_until_complete(asyncio.wait_for(scenario(), 120))
                             except mon.BudgetExceeded as e:
                                 rec.violation("call-did-not-terminate", f"concurrent calls {wit}: {e}", wit)
                                 continue
